@@ -341,7 +341,7 @@ def rand_locpath(rng, profile=FULL, steps=None):
             r = rng.random()
             name = rng.choice(ATTR_NAMES) if r < 0.7 else ('*' if r < 0.85 or not profile.get('ns') else rng.choice(['x:n', 'x:*']))
             step = rng.choice(['@' + name, 'attribute::' + name])
-            sep = '/'
+            sep = rng.choice(['/', '/', '/', '//'])
         else:
             axis = rng.choice(profile['axes'])
             test, is_elem = _node_test(rng, profile, axis)
